@@ -53,7 +53,7 @@ TIERS = {
     # max_runs: the quick tier executes one case of every stratum (rule, variant, construct, position, backend, -r)
     # and fills up to max_runs with a seeded sample of the rest; thorough executes everything
     "quick": dict(gen="quick", pairs=0, overflow_runs=3, option_cases=0, max_runs=2000),
-    "thorough": dict(gen="thorough", pairs=4000, overflow_runs=24, option_cases=10, max_runs=24000),
+    "thorough": dict(gen="thorough", pairs=2000, overflow_runs=24, option_cases=10, max_runs=24000),
 }
 
 # Repairs of /repo that layer B (spec/Pipeline/PipelineImpl.tla, constant ImplFixes) should follow. Add the name
@@ -69,7 +69,7 @@ CONSTANTS
   Tier = "%s"
   ImplFixes = {%s}
 VIEW View
-INVARIANTS DesignInvariants Emit
+INVARIANTS DesignInvariants Emit Emit2
 CHECK_DEADLOCK FALSE
 """
 
@@ -114,21 +114,26 @@ def generate(ctx, tier, bases):
                     timeout=3600, label="MC_Pipeline[%s]" % t["gen"])
         return ctx.tlc_cases(r)
 
-    def pairs():
-        r2 = ctx.tlc("Pipeline", "MC_Pipeline", "gen.cfg", files={"gen.cfg": GEN_CFG % ("pairs", fixes), "bases.json": bj},
-                     mode="simulate", simulate=t["pairs"], depth=22, timeout=3600, label="MC_Pipeline[pairs]")
-        seen, out = set(), []
-        for c in ctx.tlc_cases(r2):
-            k = json.dumps([c["base"], c["case"], c["cmd"]], sort_keys=True)
-            if k not in seen:
-                seen.add(k)
-                c["case"]["kind"] = "pair"
-                out.append(c)
-        return out
+    def slot2():
+        r2 = ctx.tlc("Pipeline", "MC_Pipeline", "gen.cfg", files={"gen.cfg": GEN_CFG % ("slot2", fixes), "bases.json": bj},
+                     timeout=3600, label="MC_Pipeline[slot2]")
+        return ctx.tlc_cases(r2, prefix="EDIT ")
 
     cases = cached("singles", singles)
     if t["pairs"]:
-        cases += cached("pairs", pairs)
+        # two-edit combinations: a TLC case (slot 1) x a TLC-enumerated edit with the fresh names of slot 2 on the
+        # same base, both backends / -r as in the first case; the pair is judged by TLC on the rendered program
+        second = collections.defaultdict(list)
+        for e in cached("slot2", slot2):
+            second[e["base"]].append(e["edit"])
+        rnd = random.Random(ctx.seed * 7919 + 1)
+        firsts = sorted((c for c in cases if c["case"]["kind"] == "idl"),
+                        key=lambda c: json.dumps([c["base"], c["case"], c["cmd"]], sort_keys=True))
+        for c in rnd.sample(firsts, min(t["pairs"], len(firsts))):
+            e2 = rnd.choice(second[c["base"]])
+            cases.append({"base": c["base"], "cmd": c["cmd"], "b": None, "broken": True, "expected": c["expected"],
+                          "brokenRules": sorted({c["case"]["rule"], e2["rule"]}),
+                          "case": {"kind": "pair", "rule": c["case"]["rule"], "edits": c["case"]["edits"] + [e2]}})
     return cases
 
 
@@ -377,7 +382,7 @@ def class_of(u, run, broken):
     cs = c["case"]
     obs = run["obs"]
     cls = {"check": "C04.run", "kind": cs["kind"], "symptom": symptom(obs, broken), "mech": M.mechanism_of(obs)}
-    if cs["kind"] in ("idl", "pair"):
+    if cs["kind"] in ("idl", "pair", "option"):
         es = cs["edits"]
         cls["rule"] = "+".join(sorted(e["rule"] for e in es))
         cls["where"] = "+".join(e["where"] for e in es)
@@ -386,7 +391,6 @@ def class_of(u, run, broken):
         cls["rule"] = cs["rule"]
         cls["variant"] = cs["variant"]
     if cs["kind"] == "option":
-        cls["rule"] = cs["rule"]
         cls["option"] = cs["option"]
     return cls
 
